@@ -137,8 +137,10 @@ Section MS.
 Variables l r : sorted.
 Hypothesis Kl : kinds_ok l.
 Hypothesis Kr : kinds_ok r.
-Hypothesis Nl : NoDup (names_of (posargs l ++ pokargs l ++ kwoargs l)).
-Hypothesis Nr : NoDup (names_of (posargs r ++ pokargs r ++ kwoargs r)).
+(* only the names that can be passed by keyword need to be distinct: this is
+   what every accumulator of the n-ary fold satisfies, validated or not *)
+Hypothesis Nl : NoDup (names_of (pokargs l ++ kwoargs l)).
+Hypothesis Nr : NoDup (names_of (pokargs r ++ kwoargs r)).
 
 Notation myS := (my l r).
 
@@ -148,7 +150,7 @@ Proof. destruct s; reflexivity. Qed.
 Lemma K_my o : kinds_ok (myS o).
 Proof. destruct o; assumption. Qed.
 
-Lemma N_my o : NoDup (names_of (posargs (myS o) ++ pokargs (myS o) ++ kwoargs (myS o))).
+Lemma N_my o : NoDup (names_of (pokargs (myS o) ++ kwoargs (myS o))).
 Proof. destruct o; assumption. Qed.
 
 Lemma po_kind o p : In p (posargs (myS o)) -> pkind p = PO.
@@ -162,20 +164,20 @@ Proof. destruct (K_my o) as (_ & _ & _ & H & _). rewrite Forall_forall in H. app
 
 Lemma pk_ko_disj o e p : In e (pokargs (myS o)) -> In p (kwoargs (myS o)) -> pname e <> pname p.
 Proof.
-  intros He Hp E. pose proof (N_my o) as H. rewrite names_app in H. apply nodup_app_r in H.
+  intros He Hp E. pose proof (N_my o) as H.
   rewrite names_app in H. apply (nodup_app_disjoint _ _ (pname e) H); [apply in_names; exact He|].
   rewrite E. apply in_names. exact Hp.
 Qed.
 
 Lemma N_ko o : NoDup (names_of (kwoargs (myS o))).
 Proof.
-  pose proof (N_my o) as H. rewrite names_app in H. apply nodup_app_r in H.
+  pose proof (N_my o) as H.
   rewrite names_app in H. apply nodup_app_r in H. exact H.
 Qed.
 
 Lemma N_pk o : NoDup (names_of (pokargs (myS o))).
 Proof.
-  pose proof (N_my o) as H. rewrite names_app in H. apply nodup_app_r in H.
+  pose proof (N_my o) as H.
   rewrite names_app in H. apply nodup_app_l in H. exact H.
 Qed.
 
@@ -699,25 +701,259 @@ Proof.
            ++ intros p [<-|[]] Hd. congruence.
 Qed.
 
+(* ------------------------------------------------------------------ *)
+(* what the next fold step needs of a result: bucket kinds and distinct
+   keyword-passable names                                               *)
+
+Lemma NoDup_app_intro {A} (a b : list A) :
+  NoDup a -> NoDup b -> (forall x, In x a -> ~ In x b) -> NoDup (a ++ b).
+Proof.
+  induction a as [|x a IH]; intros Ha Hb Hd; [exact Hb|].
+  inversion Ha as [|? ? Hx Ha']; subst. cbn [app]. constructor.
+  - intros Hin. apply in_app_or in Hin. destruct Hin as [Hin|Hin]; [contradiction|].
+    apply (Hd x); [left; reflexivity|exact Hin].
+  - apply IH; auto. intros y Hy. apply Hd. right. exact Hy.
+Qed.
+
+Lemma NoDup_single {A} (x : A) : NoDup [x].
+Proof. constructor; [intros []|constructor]. Qed.
+
+Lemma NoDup_end_snoc {A} (a b : list A) x :
+  NoDup (a ++ b) -> ~ In x a -> ~ In x b -> NoDup (a ++ b ++ [x]).
+Proof.
+  intros H Ha Hb. rewrite app_assoc. apply NoDup_app_intro; [exact H|apply NoDup_single|].
+  intros y Hy [<-|[]]. apply in_app_or in Hy. tauto.
+Qed.
+
+Lemma NoDup_mid_snoc {A} (a b : list A) x :
+  NoDup (a ++ b) -> ~ In x a -> ~ In x b -> NoDup ((a ++ [x]) ++ b).
+Proof.
+  intros H Ha Hb. apply NoDup_app_intro.
+  - apply NoDup_app_intro; [eapply nodup_app_l; exact H|apply NoDup_single|].
+    intros y Hy [<-|[]]. contradiction.
+  - eapply nodup_app_r. exact H.
+  - intros y Hy Hyb. apply in_app_or in Hy. destruct Hy as [Hy|[<-|[]]]; [|contradiction].
+    exact (nodup_app_disjoint _ _ y H Hy Hyb).
+Qed.
+
+Definition isPO (p : param) : Prop := pkind p = PO.
+Definition isPK (p : param) : Prop := pkind p = PK.
+
+Lemma filter_pk_po a : Forall isPO a -> filter (is_kind PK) a = [].
+Proof.
+  intros H. apply filter_none. rewrite Forall_forall in H. intros x Hx.
+  unfold is_kind. rewrite (H x Hx). reflexivity.
+Qed.
+
+Lemma filter_pk_pk b : Forall isPK b -> filter (is_kind PK) b = b.
+Proof.
+  intros H. apply filter_all. rewrite Forall_forall in H. intros x Hx.
+  unfold is_kind. rewrite (H x Hx). reflexivity.
+Qed.
+
+Lemma Forall_map_po (xs : list param) : Forall isPO (map (set_kind PO) xs).
+Proof. induction xs; cbn [map]; constructor; [reflexivity|assumption]. Qed.
+
+Definition pkn (st : mstate) : list name := names_of (filter (is_kind PK) (m_pok st)).
+Definition pkpat (ps : list param) : Prop :=
+  exists a b, ps = a ++ b /\ Forall isPO a /\ Forall isPK b.
+
+Record AInv (st : mstate) (rem : list param) : Prop := mkA {
+  a_pos : Forall isPO (m_pos st);
+  a_pat : pkpat (m_pok st);
+  a_nd : NoDup (pkn st ++ names_of (m_kwo st));
+  a_rem : forall x, In x (pkn st) -> ~ In x (names_of rem);
+  a_unm : forall o y, In y (names_of (unm st o)) -> ~ In y (pkn st)
+}.
+
+Lemma ainv_weaken st rem rem' : incl rem' rem -> AInv st rem -> AInv st rem'.
+Proof.
+  intros Hi [A1 A2 A3 A4 A5]. constructor; auto.
+  intros x Hx Hc. apply (A4 x Hx). apply names_in in Hc. destruct Hc as [p [Hp <-]].
+  apply in_names. apply Hi. exact Hp.
+Qed.
+
+(* the positional-only zip leaves m_pok, m_kwo and the unmatched lists alone *)
+Lemma unb_pos1_frame s e conv st st' conv' :
+  pkind e = PO -> unb_pos1 l r s e conv st = Ok (st', conv') -> Forall isPO (m_pos st) ->
+  Forall isPO (m_pos st') /\ m_pok st' = m_pok st /\ m_kwo st' = m_kwo st /\
+  (forall o, unm st' o = unm st o).
+Proof.
+  intros Hek E HP. unfold unb_pos1 in E. destruct conv as [|o conv0].
+  - destruct (isSome (varargs (other l r s))).
+    + inversion E; subst st' conv'; clear E. split; [|split; [|split]].
+      * destruct s; cbn; apply Forall_app; split; auto; constructor; auto.
+      * destruct s; reflexivity.
+      * destruct s; reflexivity.
+      * intros o; destruct s, o; reflexivity.
+    + destruct (negb (has_def e)); [discriminate|]. inversion E; subst st' conv'. auto.
+  - inversion E; subst st' conv'; clear E.
+    destruct (N.eqb (pname o) (pname e)); (split; [|split; [|split]]);
+      try reflexivity; try (intros o'; destruct o'; reflexivity);
+      cbn; apply Forall_app; split; auto; constructor; auto; exact Hek.
+Qed.
+
+Lemma unb_pos_all_frame s ps : forall conv st st' conv',
+  incl ps (posargs (myS s)) -> unb_pos_all l r s ps conv st = Ok (st', conv') -> Forall isPO (m_pos st) ->
+  Forall isPO (m_pos st') /\ m_pok st' = m_pok st /\ m_kwo st' = m_kwo st /\
+  (forall o, unm st' o = unm st o).
+Proof.
+  induction ps as [|e ps IH]; intros conv st st' conv' Hps E HP.
+  - cbn [unb_pos_all] in E. inversion E; subst. auto.
+  - cbn [unb_pos_all] in E. apply bind_ok in E. destruct E as [[st1 conv1] [E1 E2]]. cbn [fst snd] in E2.
+    apply incl_cons_l in Hps. destruct Hps as [He Hps].
+    destruct (unb_pos1_frame s e conv st st1 conv1 (po_kind s e He) E1 HP) as (A & B & C & D).
+    destruct (IH conv1 st1 st' conv' Hps E2 A) as (A' & B' & C' & D').
+    split; [exact A'|]. split; [congruence|]. split; [congruence|]. intros o. rewrite D', D. reflexivity.
+Qed.
+
+Lemma zip_pos_frame lp : forall rp il ir st st' il' ir',
+  incl lp (posargs l) -> incl rp (posargs r) ->
+  zip_pos l r lp rp il ir st = Ok (st', il', ir') -> Forall isPO (m_pos st) ->
+  Forall isPO (m_pos st') /\ m_pok st' = m_pok st /\ m_kwo st' = m_kwo st /\
+  (forall o, unm st' o = unm st o).
+Proof.
+  induction lp as [|a lp IH]; intros rp il ir st st' il' ir' Hlp Hrp E HP.
+  - cbn [zip_pos] in E. apply bind_ok in E. destruct E as [[st1 conv1] [E1 E2]]. cbn [fst snd] in E2.
+    inversion E2; subst st' il' ir'. exact (unb_pos_all_frame R rp il st st1 conv1 Hrp E1 HP).
+  - destruct rp as [|b rp].
+    + cbn [zip_pos] in E. apply bind_ok in E. destruct E as [[st1 conv1] [E1 E2]]. cbn [fst snd] in E2.
+      inversion E2; subst st' il' ir'. exact (unb_pos_all_frame L (a :: lp) ir st st1 conv1 Hlp E1 HP).
+    + cbn [zip_pos] in E.
+      apply incl_cons_l in Hlp. destruct Hlp as [Ha Hlp]. apply incl_cons_l in Hrp. destruct Hrp as [Hb Hrp].
+      pose proof (po_kind L a Ha) as Hak.
+      match type of E with zip_pos l r lp rp il ir ?s = _ => remember s as st1 eqn:Est end.
+      assert (F : Forall isPO (m_pos st1) /\ m_pok st1 = m_pok st /\ m_kwo st1 = m_kwo st /\
+                  (forall o, unm st1 o = unm st o)).
+      { rewrite Est. destruct (N.eqb (pname a) (pname b)); (split; [|split; [|split]]);
+          try reflexivity; try (intros o'; destruct o'; reflexivity);
+          cbn; apply Forall_app; split; auto; constructor; auto; exact Hak. }
+      clear Est. destruct F as (A & B & C & D).
+      destruct (IH rp il ir st1 st' il' ir' Hlp Hrp E A) as (A' & B' & C' & D').
+      split; [exact A'|]. split; [congruence|]. split; [congruence|]. intros o. rewrite D', D. reflexivity.
+Qed.
+
+(* the four outcomes of _merge_unbalanced_pok *)
+Lemma unb_pok1_shape s e st st' :
+  unb_pok1 l r s e st = Ok st' ->
+  (exists q, find_param (pname e) (unm st (flip s)) = Some q /\
+     m_pos st' = m_pos st /\ m_pok st' = m_pok st /\
+     m_kwo st' = od_set (m_kwo st) (set_kind KO (concile e q)) /\
+     unm st' s = unm st s /\ unm st' (flip s) = remove_param (pname e) (unm st (flip s)))
+  \/ (find_param (pname e) (unm st (flip s)) = None /\ (forall o, unm st' o = unm st o) /\
+      ((m_pos st' = m_pos st /\ m_pok st' = m_pok st ++ [e] /\ m_kwo st' = m_kwo st)
+       \/ (m_pos st' = m_pos st /\ m_pok st' = m_pok st /\ m_kwo st' = od_set (m_kwo st) (set_kind KO e))
+       \/ (m_pos st' = m_pos st ++ map (set_kind PO) (m_pok st) ++ [set_kind PO e] /\ m_pok st' = [] /\
+           m_kwo st' = m_kwo st)
+       \/ st' = st)).
+Proof.
+  unfold unb_pok1. change (match s with L => R | R => L end) with (flip s).
+  destruct (find_param (pname e) (unm st (flip s))) as [q|] eqn:Ef.
+  - intros E. inversion E; subst st'; clear E. left. exists q. split; [reflexivity|].
+    destruct s; cbn; auto 10.
+  - intros E. right. split; [reflexivity|].
+    destruct (isSome (varargs (other l r s)) && isSome (varkwargs (other l r s))).
+    { inversion E; subst st'. split; [intros o; destruct o; reflexivity|]. left. auto. }
+    destruct (isSome (varkwargs (other l r s))).
+    { inversion E; subst st'. split; [intros o; destruct o; reflexivity|]. right. left. auto. }
+    destruct (isSome (varargs (other l r s))).
+    { inversion E; subst st'. split; [intros o; destruct o; reflexivity|]. right. right. left. auto. }
+    destruct (negb (has_def e)); [discriminate|]. inversion E; subst st'. auto 10.
+Qed.
+
+Lemma pkn_same st st' : m_pok st' = m_pok st -> pkn st' = pkn st.
+Proof. unfold pkn. intros ->. reflexivity. Qed.
+
+Lemma pkn_snoc st st' e : m_pok st' = m_pok st ++ [e] -> pkind e = PK -> pkn st' = pkn st ++ [pname e].
+Proof.
+  unfold pkn. intros -> Hk. rewrite filter_app, names_app. cbn [filter]. unfold is_kind at 2.
+  rewrite Hk. reflexivity.
+Qed.
+
+Lemma pkpat_snoc ps e : pkpat ps -> pkind e = PK -> pkpat (ps ++ [e]).
+Proof.
+  intros (a & b & -> & Ha & Hb) Hk. exists a, (b ++ [e]). rewrite app_assoc. split; [reflexivity|].
+  split; [exact Ha|]. apply Forall_app. split; [exact Hb|constructor; [exact Hk|constructor]].
+Qed.
+
+Lemma pkpat_po ps : Forall isPO ps -> pkpat ps.
+Proof. intros H. exists ps, []. rewrite app_nil_r. repeat split; auto. Qed.
+
+Lemma unb_pok1_acc s e ps st st' :
+  In e (pokargs (myS s)) -> NoDup (names_of (e :: ps)) ->
+  ~ In (pname e) (names_of (m_kwo st)) ->
+  unb_pok1 l r s e st = Ok st' ->
+  GU s st -> AInv st (e :: ps) -> AInv st' ps.
+Proof.
+  intros He Hn Hfr E GUs [A1 A2 A3 A4 A5]. pose proof (pk_kind s e He) as Hek.
+  cbn [names_of map] in Hn. inversion Hn as [|? ? Hne Hn']; subst.
+  assert (Hx : ~ In (pname e) (pkn st)).
+  { intros Hc. apply (A4 _ Hc). left. reflexivity. }
+  assert (A4' : forall x, In x (pkn st) -> ~ In x (names_of ps)).
+  { intros x Hx' Hc. apply (A4 x Hx'). right. exact Hc. }
+  destruct (unb_pok1_shape s e st st' E) as [[q (Ef & P1 & P2 & K & Us & Uf)]|(Ef & U & Hcases)].
+  - rewrite (od_set_snoc (m_kwo st) (set_kind KO (concile e q)) Hfr) in K. constructor.
+    + rewrite P1. exact A1.
+    + rewrite P2. exact A2.
+    + rewrite (pkn_same _ _ P2), K, names_app. apply NoDup_end_snoc; assumption.
+    + rewrite (pkn_same _ _ P2). exact A4'.
+    + rewrite (pkn_same _ _ P2). intros o y Hy. apply (A5 o).
+      destruct (side_cases o s) as [-> | ->]; [rewrite Us in Hy; exact Hy|].
+      rewrite Uf in Hy. apply names_remove in Hy. tauto.
+  - destruct Hcases as [(P1 & P2 & K)|[(P1 & P2 & K)|[(P1 & P2 & K)| ->]]].
+    + (* stays positional-or-keyword *)
+      constructor.
+      * rewrite P1. exact A1.
+      * rewrite P2. apply pkpat_snoc; assumption.
+      * rewrite (pkn_snoc _ _ _ P2 Hek), K. apply NoDup_mid_snoc; assumption.
+      * rewrite (pkn_snoc _ _ _ P2 Hek). intros x Hx' Hc. apply in_app_or in Hx'.
+        destruct Hx' as [Hx'|[<-|[]]]; [exact (A4' x Hx' Hc)|contradiction].
+      * rewrite (pkn_snoc _ _ _ P2 Hek). intros o y Hy Hc. rewrite U in Hy. apply in_app_or in Hc.
+        destruct Hc as [Hc|[<-|[]]]; [exact (A5 o y Hy Hc)|].
+        destruct (side_cases o s) as [-> | ->].
+        -- apply names_in in Hy. destruct Hy as [p' [Hp' Ey]].
+           apply (pk_ko_disj s e p' He); [apply (g_fc _ _ GUs); exact Hp'|congruence].
+        -- apply find_param_None in Ef. contradiction.
+    + (* becomes keyword-only *)
+      rewrite (od_set_snoc (m_kwo st) (set_kind KO e) Hfr) in K. constructor.
+      * rewrite P1. exact A1.
+      * rewrite P2. exact A2.
+      * rewrite (pkn_same _ _ P2), K, names_app. apply NoDup_end_snoc; assumption.
+      * rewrite (pkn_same _ _ P2). exact A4'.
+      * rewrite (pkn_same _ _ P2). intros o y Hy. rewrite U in Hy. exact (A5 o y Hy).
+    + (* everything becomes positional-only *)
+      assert (Epk : pkn st' = []) by (unfold pkn; rewrite P2; reflexivity).
+      constructor.
+      * rewrite P1. apply Forall_app. split; [exact A1|]. apply Forall_app. split; [apply Forall_map_po|].
+        constructor; [reflexivity|constructor].
+      * rewrite P2. apply pkpat_po. constructor.
+      * rewrite Epk, K. cbn [app]. eapply nodup_app_r. exact A3.
+      * rewrite Epk. intros x [].
+      * rewrite Epk. intros o y _ [].
+    + constructor; auto.
+Qed.
+
+
 Lemma unb_pok_all_inv s ps : forall st st' ds dt,
   NoDup (names_of ps) -> incl ps (pokargs (myS s)) ->
   (forall x, In x (names_of ps) -> ~ In x (names_of (m_kwo st))) ->
   unb_pok_all l r s ps st = Ok st' ->
-  GInv st -> SInv s st ds -> SInv (flip s) st dt ->
-  GInv st' /\ SInv s st' (ds ++ ps) /\ SInv (flip s) st' dt.
+  GInv st -> SInv s st ds -> SInv (flip s) st dt -> AInv st ps ->
+  GInv st' /\ SInv s st' (ds ++ ps) /\ SInv (flip s) st' dt /\ AInv st' [].
 Proof.
-  induction ps as [|e ps IH]; intros st st' ds dt Hn Hps Hfr E G Ss St.
+  induction ps as [|e ps IH]; intros st st' ds dt Hn Hps Hfr E G Ss St A.
   - cbn [unb_pok_all] in E. inversion E; subst st'. rewrite app_nil_r. auto.
   - cbn [unb_pok_all] in E. apply bind_ok in E. destruct E as [st1 [E1 E2]].
     apply incl_cons_l in Hps. destruct Hps as [He Hps].
-    cbn [names_of map] in Hn. inversion Hn as [|? ? Hne Hn']; subst.
     assert (Hfe : ~ In (pname e) (names_of (m_kwo st))) by (apply Hfr; left; reflexivity).
+    pose proof (unb_pok1_acc s e ps st st1 He Hn Hfe E1 (ginv_gu s st G) A) as A1.
+    cbn [names_of map] in Hn. inversion Hn as [|? ? Hne Hn']; subst.
     destruct (unb_pok1_inv s e st st1 ds dt He Hfe E1 G Ss St) as (G1 & S1 & T1 & Hk1).
     assert (Hfr1 : forall x, In x (names_of ps) -> ~ In x (names_of (m_kwo st1))).
     { intros x Hx Hc. destruct (Hk1 x Hc) as [Hc'| ->].
       - apply (Hfr x); [right; exact Hx|exact Hc'].
       - apply Hne. exact Hx. }
-    destruct (IH st1 st' (ds ++ [e]) dt Hn' Hps Hfr1 E2 G1 S1 T1) as (G2 & S2 & T2).
+    destruct (IH st1 st' (ds ++ [e]) dt Hn' Hps Hfr1 E2 G1 S1 T1 A1) as (G2 & S2 & T2 & A2).
     rewrite <- app_assoc in S2. cbn [app] in S2. auto.
 Qed.
 
@@ -728,8 +964,8 @@ Lemma zip_pok_inv il : forall ir st st' dl dr,
   NoDup (names_of il) -> NoDup (names_of ir) -> incl il (pokargs l) -> incl ir (pokargs r) ->
   (forall x, In x (names_of (m_kwo st)) -> In x (names_of (kwoargs l)) /\ In x (names_of (kwoargs r))) ->
   zip_pok l r il ir st = Ok st' ->
-  GInv st -> SInv L st dl -> SInv R st dr ->
-  GInv st' /\ SInv L st' (dl ++ il) /\ SInv R st' (dr ++ ir).
+  GInv st -> SInv L st dl -> SInv R st dr -> AInv st (il ++ ir) ->
+  GInv st' /\ SInv L st' (dl ++ il) /\ SInv R st' (dr ++ ir) /\ AInv st' [].
 Proof.
   assert (Hfresh : forall o ps st,
             incl ps (pokargs (myS o)) ->
@@ -739,22 +975,32 @@ Proof.
     assert (Hko : In (pname e) (names_of (kwoargs (myS o)))) by (destruct (Hk _ Hc); destruct o; assumption).
     apply names_in in Hko. destruct Hko as [p [Hp Ep]].
     apply (pk_ko_disj o e p (Hps e He) Hp). symmetry. exact Ep. }
-  induction il as [|a il IH]; intros ir st st' dl dr Nil Nir Hil Hir Hk E G SL SR.
-  - cbn [zip_pok] in E.
-    destruct (unb_pok_all_inv R ir st st' dr dl Nir Hir (Hfresh R ir st Hir Hk) E G SR SL) as (G1 & S1 & T1).
+  induction il as [|a il IH]; intros ir st st' dl dr Nil Nir Hil Hir Hk E G SL SR A.
+  - cbn [zip_pok] in E. cbn [app] in A.
+    destruct (unb_pok_all_inv R ir st st' dr dl Nir Hir (Hfresh R ir st Hir Hk) E G SR SL A) as (G1 & S1 & T1 & A1).
     rewrite app_nil_r. auto.
   - destruct ir as [|b ir].
-    + cbn [zip_pok] in E.
-      destruct (unb_pok_all_inv L (a :: il) st st' dl dr Nil Hil (Hfresh L (a :: il) st Hil Hk) E G SL SR)
-        as (G1 & S1 & T1).
+    + cbn [zip_pok] in E. rewrite app_nil_r in A.
+      destruct (unb_pok_all_inv L (a :: il) st st' dl dr Nil Hil (Hfresh L (a :: il) st Hil Hk) E G SL SR A)
+        as (G1 & S1 & T1 & A1).
       rewrite app_nil_r. auto.
     + cbn [zip_pok] in E.
+      pose proof (Hfresh L (a :: il) st Hil Hk (pname a) (or_introl eq_refl)) as Hfa.
       apply incl_cons_l in Hil. destruct Hil as [Ha Hil]. apply incl_cons_l in Hir. destruct Hir as [Hb Hir].
       pose proof (pk_kind L a Ha) as Hak. pose proof (pk_kind R b Hb) as Hbk.
+      assert (Hna : ~ In (pname a) (names_of il)) by (cbn [names_of map] in Nil; inversion Nil; assumption).
+      assert (Hnb : ~ In (pname b) (names_of ir)) by (cbn [names_of map] in Nir; inversion Nir; assumption).
       apply nodup_names_cons in Nil. apply nodup_names_cons in Nir.
+      destruct A as [A1 A2 A3 A4 A5].
+      assert (A4' : forall x, In x (pkn st) -> ~ In x (names_of (il ++ ir))).
+      { intros x Hx Hc. apply (A4 x Hx). rewrite names_app in Hc. rewrite names_app. cbn [names_of map].
+        apply in_app_or in Hc. destruct Hc as [Hc|Hc]; [apply in_or_app; left; right; exact Hc|].
+        apply in_or_app. right. right. exact Hc. }
       destruct (N.eqb_spec (pname a) (pname b)) as [Eab|Nab].
       * remember (add_src2 l r (set_pok st (m_pok st ++ [concile a b])) (pname a) L R) as st1 eqn:Est.
-        assert (P : pstep (RP st) (RP st1) [concile a b]) by (apply pstep_pok; rewrite Est; reflexivity).
+        assert (P1 : m_pos st1 = m_pos st) by (rewrite Est; reflexivity).
+        assert (P2 : m_pok st1 = m_pok st ++ [concile a b]) by (rewrite Est; reflexivity).
+        assert (P : pstep (RP st) (RP st1) [concile a b]) by (apply pstep_pok; assumption).
         assert (K : m_kwo st1 = m_kwo st) by (rewrite Est; reflexivity).
         assert (U : forall o', unm st1 o' = unm st o') by (intros o'; rewrite Est; destruct o'; reflexivity).
         clear Est.
@@ -775,16 +1021,37 @@ Proof.
             split; [apply concile_req_r; exact Hd|right; auto].
           - intros q [<-|[]] _. left. change (pname (concile a b)) with (pname a). rewrite Eab.
             apply (kwp_pk R b Hb). }
+        assert (B1 : AInv st1 (il ++ ir)).
+        { assert (Epk : pkn st1 = pkn st ++ [pname a]) by (apply (pkn_snoc st st1 (concile a b) P2 Hck)).
+          assert (Hx : ~ In (pname a) (pkn st)).
+          { intros Hc. apply (A4 _ Hc). rewrite names_app. apply in_or_app. left. left. reflexivity. }
+          constructor.
+          - rewrite P1. exact A1.
+          - rewrite P2. apply pkpat_snoc; assumption.
+          - rewrite Epk, K. apply NoDup_mid_snoc; assumption.
+          - rewrite Epk. intros x Hx' Hc. apply in_app_or in Hx'.
+            destruct Hx' as [Hx'|[<-|[]]]; [exact (A4' x Hx' Hc)|].
+            rewrite names_app in Hc. apply in_app_or in Hc. destruct Hc as [Hc|Hc]; [contradiction|].
+            rewrite Eab in Hc. contradiction.
+          - rewrite Epk. intros o y Hy Hc. rewrite U in Hy. apply in_app_or in Hc.
+            destruct Hc as [Hc|[<-|[]]]; [exact (A5 o y Hy Hc)|].
+            apply names_in in Hy. destruct Hy as [p' [Hp' Ey]].
+            pose proof (g_fc _ _ (ginv_gu o st G) p' Hp') as Hko. destruct o.
+            + apply (pk_ko_disj L a p' Ha Hko). congruence.
+            + apply (pk_ko_disj R b p' Hb Hko). congruence. }
         assert (Hk1 : forall x, In x (names_of (m_kwo st1)) ->
                                 In x (names_of (kwoargs l)) /\ In x (names_of (kwoargs r)))
           by (rewrite K; exact Hk).
-        destruct (IH ir st1 st' (dl ++ [a]) (dr ++ [b]) Nil Nir Hil Hir Hk1 E G1 S1 T1) as (G2 & S2 & T2).
+        destruct (IH ir st1 st' (dl ++ [a]) (dr ++ [b]) Nil Nir Hil Hir Hk1 E G1 S1 T1 B1) as (G2 & S2 & T2 & B2).
         rewrite <- app_assoc in S2, T2. cbn [app] in S2, T2. auto.
       * remember (add_src1 l r
                     (set_pok st (map (set_kind PO) (m_pok st) ++ [set_kind PO (concile a b)]))
                     (pname a) L) as st1 eqn:Est.
+        assert (P1 : m_pos st1 = m_pos st) by (rewrite Est; reflexivity).
+        assert (P2 : m_pok st1 = map (set_kind PO) (m_pok st) ++ [set_kind PO (concile a b)])
+          by (rewrite Est; reflexivity).
         assert (P : pstep (RP st) (RP st1) [set_kind PO (concile a b)])
-          by (apply pstep_conv_pok; rewrite Est; reflexivity).
+          by (apply pstep_conv_pok; assumption).
         assert (K : m_kwo st1 = m_kwo st) by (rewrite Est; reflexivity).
         assert (U : forall o', unm st1 o' = unm st o') by (intros o'; rewrite Est; destruct o'; reflexivity).
         clear Est.
@@ -803,11 +1070,526 @@ Proof.
           - intros p [<-|[]] Hd. exists (set_kind PO (concile a b)). split; [left; reflexivity|].
             split; [apply (concile_req_r a b Hd)|left; reflexivity].
           - intros q [<-|[]] Hq. cbn in Hq. discriminate. }
+        assert (B1 : AInv st1 (il ++ ir)).
+        { assert (HPO : Forall isPO (m_pok st1)).
+          { rewrite P2. apply Forall_app. split; [apply Forall_map_po|constructor; [reflexivity|constructor]]. }
+          assert (Epk : pkn st1 = []) by (unfold pkn; rewrite (filter_pk_po _ HPO); reflexivity).
+          constructor.
+          - rewrite P1. exact A1.
+          - apply pkpat_po. exact HPO.
+          - rewrite Epk, K. cbn [app]. eapply nodup_app_r. exact A3.
+          - rewrite Epk. intros x [].
+          - rewrite Epk. intros o y _ []. }
         assert (Hk1 : forall x, In x (names_of (m_kwo st1)) ->
                                 In x (names_of (kwoargs l)) /\ In x (names_of (kwoargs r)))
           by (rewrite K; exact Hk).
-        destruct (IH ir st1 st' (dl ++ [a]) (dr ++ [b]) Nil Nir Hil Hir Hk1 E G1 S1 T1) as (G2 & S2 & T2).
+        destruct (IH ir st1 st' (dl ++ [a]) (dr ++ [b]) Nil Nir Hil Hir Hk1 E G1 S1 T1 B1) as (G2 & S2 & T2 & B2).
         rewrite <- app_assoc in S2, T2. cbn [app] in S2, T2. auto.
 Qed.
 
+(* ------------------------------------------------------------------ *)
+(* the keyword-only matching stage: initial invariants                  *)
+
+Definition matched (lk : list param) : list param :=
+  flat_map (fun p => match find_param (pname p) (kwoargs r) with
+                     | Some q => [concile p q] | None => [] end) lk.
+Definition lunmatched (lk : list param) : list param :=
+  filter (fun p => negb (isSome (find_param (pname p) (kwoargs r)))) lk.
+
+Lemma kwo_match_spec lk : forall st,
+  NoDup (names_of lk) ->
+  (forall x, In x (names_of lk) -> ~ In x (names_of (m_kwo st)) /\ ~ In x (names_of (m_lunm st))) ->
+  m_kwo (kwo_match l r lk st) = m_kwo st ++ matched lk /\
+  m_lunm (kwo_match l r lk st) = m_lunm st ++ lunmatched lk /\
+  m_pos (kwo_match l r lk st) = m_pos st /\ m_pok (kwo_match l r lk st) = m_pok st /\
+  m_runm (kwo_match l r lk st) = m_runm st.
+Proof.
+  induction lk as [|p lk IH]; intros st Hn Hfr.
+  - cbn [kwo_match matched lunmatched flat_map filter]. rewrite !app_nil_r. auto.
+  - cbn [names_of map] in Hn. inversion Hn as [|? ? Hp Hn']; subst.
+    destruct (Hfr (pname p) (or_introl eq_refl)) as [F1 F2].
+    cbn [kwo_match matched lunmatched flat_map filter].
+    destruct (find_param (pname p) (kwoargs r)) as [q|] eqn:Ef; cbn [isSome negb].
+    + match goal with |- context [kwo_match l r lk ?s] => set (st1 := s) end.
+      assert (K1 : m_kwo st1 = m_kwo st ++ [concile p q]).
+      { unfold st1. cbn [set_src set_kwo m_kwo]. apply od_set_snoc. exact F1. }
+      assert (L1 : m_lunm st1 = m_lunm st) by reflexivity.
+      destruct (IH st1 Hn') as (A & B & C & D & E).
+      { intros x Hx. rewrite K1, L1, names_app. split.
+        - intros Hc. apply in_app_or in Hc. destruct Hc as [Hc|[Hc|[]]].
+          + apply (proj1 (Hfr x (or_intror Hx))). exact Hc.
+          + apply Hp. change (pname (concile p q)) with (pname p) in Hc. rewrite Hc. exact Hx.
+        - apply (proj2 (Hfr x (or_intror Hx))). }
+      rewrite A, B, C, D, E, K1, L1. fold (matched lk). fold (lunmatched lk).
+      rewrite <- app_assoc. repeat split; reflexivity.
+    + match goal with |- context [kwo_match l r lk ?s] => set (st1 := s) end.
+      assert (K1 : m_kwo st1 = m_kwo st) by reflexivity.
+      assert (L1 : m_lunm st1 = m_lunm st ++ [p]).
+      { unfold st1. cbn [set_unm m_lunm]. apply od_set_snoc. exact F2. }
+      destruct (IH st1 Hn') as (A & B & C & D & E).
+      { intros x Hx. rewrite K1, L1, names_app. split.
+        - apply (proj1 (Hfr x (or_intror Hx))).
+        - intros Hc. apply in_app_or in Hc. destruct Hc as [Hc|[Hc|[]]].
+          + apply (proj2 (Hfr x (or_intror Hx))). exact Hc.
+          + apply Hp. rewrite Hc. exact Hx. }
+      rewrite A, B, C, D, E, K1, L1. fold (matched lk). fold (lunmatched lk).
+      rewrite <- app_assoc. repeat split; reflexivity.
+Qed.
+
+Lemma in_matched c lk :
+  In c (matched lk) ->
+  exists p q, In p lk /\ find_param (pname p) (kwoargs r) = Some q /\ c = concile p q.
+Proof.
+  unfold matched. rewrite in_flat_map. intros [p [Hp Hc]].
+  destruct (find_param (pname p) (kwoargs r)) as [q|] eqn:Ef; [|destruct Hc].
+  destruct Hc as [<-|[]]. exists p, q. auto.
+Qed.
+
+Lemma matched_in p q lk :
+  In p lk -> find_param (pname p) (kwoargs r) = Some q -> In (concile p q) (matched lk).
+Proof.
+  intros Hp Ef. unfold matched. rewrite in_flat_map. exists p. split; [exact Hp|].
+  rewrite Ef. left. reflexivity.
+Qed.
+
+Definition st0 : mstate := mkM [] [] [] [] false false false false [] [].
+Definition st_init : mstate := set_unm (kwo_match l r (kwoargs l) st0) R (r_unmatched l r).
+
+Lemma init_fields :
+  m_pos st_init = [] /\ m_pok st_init = [] /\ m_kwo st_init = matched (kwoargs l) /\
+  m_lunm st_init = lunmatched (kwoargs l) /\ m_runm st_init = r_unmatched l r.
+Proof.
+  destruct (kwo_match_spec (kwoargs l) st0 (N_ko L)) as (A & B & C & D & E).
+  { intros x _. cbn. tauto. }
+  unfold st_init. cbn [set_unm m_pos m_pok m_kwo m_lunm m_runm]. rewrite A, B, C, D. auto.
+Qed.
+
+Lemma init_inv :
+  GInv st_init /\ SInv L st_init [] /\ SInv R st_init [] /\
+  (forall x, In x (names_of (m_kwo st_init)) ->
+             In x (names_of (kwoargs l)) /\ In x (names_of (kwoargs r))).
+Proof.
+  destruct init_fields as (F1 & F2 & F3 & F4 & F5).
+  assert (FRP : RP st_init = []) by (unfold RP; rewrite F1, F2; reflexivity).
+  assert (HL : forall p, In p (m_lunm st_init) ->
+                         In p (kwoargs l) /\ find_param (pname p) (kwoargs r) = None).
+  { intros p Hp. rewrite F4 in Hp. unfold lunmatched in Hp. apply filter_In in Hp.
+    destruct Hp as [Hp Hf]. split; [exact Hp|]. destruct (find_param (pname p) (kwoargs r)); [discriminate|reflexivity]. }
+  assert (HR : forall p, In p (m_runm st_init) ->
+                         In p (kwoargs r) /\ find_param (pname p) (kwoargs l) = None).
+  { intros p Hp. rewrite F5 in Hp. unfold r_unmatched in Hp. apply filter_In in Hp.
+    destruct Hp as [Hp Hf]. split; [exact Hp|]. destruct (find_param (pname p) (kwoargs l)); [discriminate|reflexivity]. }
+  assert (HM : forall c, In c (m_kwo st_init) ->
+             exists p q, In p (kwoargs l) /\ In q (kwoargs r) /\ pname q = pname p /\
+                         find_param (pname p) (kwoargs r) = Some q /\ c = concile p q).
+  { intros c Hc. rewrite F3 in Hc. apply in_matched in Hc. destruct Hc as [p [q (Hp & Ef & ->)]].
+    destruct (find_param_In _ _ _ Ef) as [Hq Hqn]. exists p, q. auto 10. }
+  assert (HMn : forall x, In x (names_of (m_kwo st_init)) ->
+                In x (names_of (kwoargs l)) /\ In x (names_of (kwoargs r))).
+  { intros x Hx. apply names_in in Hx. destruct Hx as [c [Hc <-]].
+    destruct (HM c Hc) as [p [q (Hp & Hq & Hn & _ & ->)]]. change (pname (concile p q)) with (pname p).
+    split; [apply in_names; exact Hp|rewrite <- Hn; apply in_names; exact Hq]. }
+  assert (NL : NoDup (names_of (m_lunm st_init))) by (rewrite F4; apply NoDup_names_filter; apply (N_ko L)).
+  assert (NR : NoDup (names_of (m_runm st_init))) by (rewrite F5; apply NoDup_names_filter; apply (N_ko R)).
+  split; [|split; [|split]].
+  - unfold GInv. split; [|split; [|split]].
+    + constructor.
+      * rewrite FRP. intros q [].
+      * intros c Hc. destruct (HM c Hc) as [p [q (Hp & _ & _ & _ & ->)]]. exact (ko_kind L p Hp).
+    + constructor; cbn [unm].
+      * intros y Hy Hc. apply names_in in Hy. destruct Hy as [p [Hp <-]]. destruct (HL p Hp) as [_ Hnone].
+        apply find_param_None in Hnone. apply Hnone. apply (HMn _ Hc).
+      * exact NL.
+      * intros p Hp. apply (HL p Hp).
+    + constructor; cbn [unm].
+      * intros y Hy Hc. apply names_in in Hy. destruct Hy as [p [Hp <-]]. destruct (HR p Hp) as [_ Hnone].
+        apply find_param_None in Hnone. apply Hnone. apply (HMn _ Hc).
+      * exact NR.
+      * intros p Hp. apply (HR p Hp).
+    + intros y Hy Hc. apply names_in in Hy. destruct Hy as [p [Hp <-]]. destruct (HL p Hp) as [_ Hnone].
+      apply find_param_None in Hnone. apply Hnone.
+      apply names_in in Hc. destruct Hc as [p' [Hp' <-]]. apply in_names. apply (HR p' Hp').
+  - constructor.
+    + left. rewrite nreq_nil. lia.
+    + left. rewrite FRP. cbn. lia.
+    + intros p [].
+    + intros c [[Hc _]|Hc]; [rewrite FRP in Hc; destruct Hc|].
+      destruct (HM c Hc) as [p [q (Hp & _ & _ & _ & ->)]]. left. exact (kwp_ko L p Hp).
+    + intros p Hp Hd. cbn [unm my] in *. destruct (find_param (pname p) (kwoargs r)) as [q|] eqn:Ef.
+      * left. exists (concile p q). rewrite F3. split; [apply matched_in; assumption|].
+        split; [apply concile_req_l; exact Hd|reflexivity].
+      * right. apply find_param_self; [exact NL|]. rewrite F4. unfold lunmatched. apply filter_In.
+        rewrite Ef. auto.
+  - constructor.
+    + left. rewrite nreq_nil. lia.
+    + left. rewrite FRP. cbn. lia.
+    + intros p [].
+    + intros c [[Hc _]|Hc]; [rewrite FRP in Hc; destruct Hc|].
+      destruct (HM c Hc) as [p [q (_ & Hq & Hn & _ & ->)]]. left.
+      change (pname (concile p q)) with (pname p). rewrite <- Hn. exact (kwp_ko R q Hq).
+    + intros q Hq Hd. cbn [unm my] in *. destruct (find_param (pname q) (kwoargs l)) as [p|] eqn:Ef.
+      * left. destruct (find_param_In _ _ _ Ef) as [Hp Hn].
+        assert (Ef' : find_param (pname p) (kwoargs r) = Some q).
+        { rewrite Hn. apply find_param_self; [apply (N_ko R)|exact Hq]. }
+        exists (concile p q). rewrite F3. split; [apply matched_in; assumption|].
+        split; [apply concile_req_r; exact Hd|exact Hn].
+      * right. apply find_param_self; [exact NR|]. rewrite F5. unfold r_unmatched. apply filter_In.
+        rewrite Ef. auto.
+  - exact HMn.
+Qed.
+
+(* ------------------------------------------------------------------ *)
+(* leftover keyword-only parameters                                     *)
+
+Lemma fold_src_fields (s : side) u : forall st,
+  let st' := fold_left (fun a p => add_src1 l r a (pname p) s) u st in
+  m_pos st' = m_pos st /\ m_pok st' = m_pok st /\ m_kwo st' = m_kwo st /\
+  m_lunm st' = m_lunm st /\ m_runm st' = m_runm st.
+Proof.
+  induction u as [|p u IH]; intros st; cbn [fold_left]; [auto 10|].
+  destruct (IH (add_src1 l r st (pname p) s)) as (A & B & C & D & E).
+  cbv zeta. rewrite A, B, C, D, E. auto 10.
+Qed.
+
+Lemma excl_vk_fields st x :
+  m_pos (excl_vk st x) = m_pos st /\ m_pok (excl_vk st x) = m_pok st /\ m_kwo (excl_vk st x) = m_kwo st /\
+  m_lunm (excl_vk st x) = m_lunm st /\ m_runm (excl_vk st x) = m_runm st.
+Proof. destruct x; cbn; auto 10. Qed.
+
+Lemma unm_fields st st' :
+  m_lunm st' = m_lunm st -> m_runm st' = m_runm st -> forall o, unm st' o = unm st o.
+Proof. intros A B o. destruct o; cbn [unm]; assumption. Qed.
+
+Lemma unmatched_kwo_inv s st st' d1 d2 :
+  unmatched_kwo l r s st = Ok st' ->
+  GK st -> GU s st ->
+  (forall y, In y (names_of (unm st s)) -> ~ In y (names_of (unm st (flip s)))) ->
+  SInv s st d1 -> SInv (flip s) st d2 ->
+  GK st' /\ (GU (flip s) st -> GU (flip s) st') /\ SInv s st' d1 /\ SInv (flip s) st' d2 /\
+  (forall p, In p (kwoargs (myS s)) -> has_def p = false ->
+             exists q, In q (m_kwo st') /\ has_def q = false /\ pname q = pname p) /\
+  (forall q, In q (m_kwo st) -> In q (m_kwo st')) /\
+  (forall o, unm st' o = unm st o).
+Proof.
+  intros E G GUs Hdis Ss St. unfold unmatched_kwo in E.
+  destruct (unm st s) as [|u0 u] eqn:Eu.
+  - inversion E; subst st'.
+    split; [assumption|]. split; [auto|]. split; [assumption|]. split; [assumption|]. split; [|auto].
+    intros p Hp Hd. destruct (s_ko _ _ _ Ss p Hp Hd) as [H|H]; [exact H|]. rewrite Eu in H. discriminate.
+  - rewrite <- Eu in *. pose proof (s_ko _ _ _ Ss) as Sko. destruct (isSome (varkwargs (other l r s))) eqn:Evk.
+    + rewrite other_flip in Evk.
+      remember (excl_vk (fold_left (fun a p => add_src1 l r a (pname p) s) (unm st s)
+                                   (set_kwo st (od_update (m_kwo st) (unm st s))))
+                        (match s with L => R | R => L end)) as st1 eqn:Est.
+      inversion E; subst st'; clear E.
+      destruct (fold_src_fields s (unm st s) (set_kwo st (od_update (m_kwo st) (unm st s)))) as (A & B & C & D & F).
+      cbv zeta in A, B, C, D, F. cbn [set_kwo m_pos m_pok m_kwo m_lunm m_runm] in A, B, C, D, F.
+      destruct (excl_vk_fields (fold_left (fun a p => add_src1 l r a (pname p) s) (unm st s)
+                                   (set_kwo st (od_update (m_kwo st) (unm st s))))
+                               (match s with L => R | R => L end)) as (A' & B' & C' & D' & F').
+      rewrite <- Est in A', B', C', D', F'.
+      assert (K0 : m_kwo st1 = od_update (m_kwo st) (unm st s)) by (rewrite C'; exact C).
+      assert (P : RP st1 = RP st) by (unfold RP; rewrite A', B', A, B; reflexivity).
+      assert (U : forall o, unm st1 o = unm st o) by (apply unm_fields; [rewrite D'; exact D|rewrite F'; exact F]).
+      clear A' B' C' D' F'.
+      clear Est A B C D F.
+      assert (K : m_kwo st1 = m_kwo st ++ unm st s).
+      { rewrite K0. apply od_update_fresh; [apply (g_fb _ _ GUs)|apply (g_fa _ _ GUs)]. }
+      clear K0.
+      split; [|split; [|split; [|split; [|split; [|split]]]]]; [| | | | | |exact U].
+      * apply (gk_grow st st1 [] (unm st s)); auto using pstep_same.
+        intros q Hq. apply (ko_kind s). apply (g_fc _ _ GUs). exact Hq.
+      * intros GUf. apply (gu_grow (flip s) st st1 (unm st s)); auto.
+        -- rewrite U. auto.
+        -- rewrite U. apply (g_fb _ _ GUf).
+        -- rewrite U. intros y Hy Hc. exact (Hdis y Hc Hy).
+      * rewrite <- (app_nil_r d1).
+        apply (sinv_grow s st st1 d1 [] [] (unm st s)); auto using pstep_same; try solve [intros ? []].
+        -- intros q [[[] _]|Hq]. left. apply (kwp_ko s). apply (g_fc _ _ GUs). exact Hq.
+        -- intros p _ _ Hf. left. rewrite U. exact Hf.
+      * rewrite <- (app_nil_r d2).
+        apply (sinv_grow (flip s) st st1 d2 [] [] (unm st s)); auto using pstep_same; try solve [intros ? []].
+        intros p _ _ Hf. left. rewrite U. exact Hf.
+      * intros p Hp Hd. destruct (Sko p Hp Hd) as [[q [Hq Hr]]|Hf].
+        -- exists q. split; [rewrite K; apply in_or_app; left; exact Hq|exact Hr].
+        -- exists p. destruct (find_param_In _ _ _ Hf) as [Hin _].
+           split; [rewrite K; apply in_or_app; right; exact Hin|auto].
+      * intros q Hq. rewrite K. apply in_or_app. left. exact Hq.
+    + destruct (forallb has_def (unm st s)) eqn:Eall; [|discriminate].
+      inversion E; subst st'.
+      split; [assumption|]. split; [auto|]. split; [assumption|]. split; [assumption|]. split; [|auto].
+      intros p Hp Hd. destruct (Sko p Hp Hd) as [H|H]; [exact H|].
+      destruct (find_param_In _ _ _ H) as [Hin _]. rewrite forallb_forall in Eall.
+      rewrite (Eall p Hin) in Hd. discriminate.
+Qed.
+
+(* ------------------------------------------------------------------ *)
+(* normalise_pok and add_star do not change what the invariants see     *)
+
+Lemma split_po_prefix_app ps : fst (split_po_prefix ps) ++ snd (split_po_prefix ps) = ps.
+Proof.
+  induction ps as [|p ps IH]; [reflexivity|]. cbn [split_po_prefix].
+  destruct (is_kind PO p); [|reflexivity].
+  destruct (split_po_prefix ps) as [a b]. cbn [fst snd app] in *. rewrite IH. reflexivity.
+Qed.
+
+Lemma normalise_fields st :
+  RP (normalise_pok st) = RP st /\ m_kwo (normalise_pok st) = m_kwo st /\
+  (forall o, unm (normalise_pok st) o = unm st o) /\
+  m_xva_l (normalise_pok st) = m_xva_l st /\ m_xva_r (normalise_pok st) = m_xva_r st.
+Proof.
+  unfold normalise_pok. pose proof (split_po_prefix_app (m_pok st)) as H.
+  destruct (split_po_prefix (m_pok st)) as [a b]. cbn [fst snd] in H.
+  unfold RP. cbn [set_pok set_pos m_pos m_pok m_kwo]. rewrite <- app_assoc, H.
+  repeat split; try (intros o; destruct o; reflexivity).
+Qed.
+
+Lemma add_star_fields xl xr sl sr st :
+  m_pos (snd (add_star l r xl xr sl sr st)) = m_pos st /\
+  m_pok (snd (add_star l r xl xr sl sr st)) = m_pok st /\
+  m_kwo (snd (add_star l r xl xr sl sr st)) = m_kwo st /\
+  (forall o, unm (snd (add_star l r xl xr sl sr st)) o = unm st o) /\
+  isSome (fst (add_star l r xl xr sl sr st)) = isSome sl && isSome sr /\
+  (forall p, fst (add_star l r xl xr sl sr st) = Some p ->
+             (exists a, sl = Some a /\ pkind p = pkind a) \/ (exists b, sr = Some b /\ pkind p = pkind b)).
+Proof.
+  unfold add_star. destruct sl as [a|], sr as [b|]; cbn [fst snd isSome andb];
+    try (repeat split; try (intros o; destruct o; reflexivity); intros p Hp; discriminate).
+  destruct (negb xl && negb xr); [|destruct (negb xl)]; cbn [fst snd];
+    try destruct (N.eqb (pname a) (pname b)); cbn [fst snd];
+    (repeat split; try (intros o; destruct o; reflexivity));
+    intros p Hp; inversion Hp; subst p; eauto.
+Qed.
+
+(* ---- accumulator facts for the remaining stages ---- *)
+Lemma names_matched_incl lk x : In x (names_of (matched lk)) -> In x (names_of lk).
+Proof.
+  intros H. apply names_in in H. destruct H as [c [Hc <-]]. apply in_matched in Hc.
+  destruct Hc as [p [q (Hp & _ & ->)]]. change (pname (concile p q)) with (pname p). apply in_names. exact Hp.
+Qed.
+
+Lemma matched_names_nodup lk : NoDup (names_of lk) -> NoDup (names_of (matched lk)).
+Proof.
+  induction lk as [|p lk IH]; intros H; [constructor|].
+  cbn [names_of map] in H. inversion H as [|? ? Hp Hn]; subst.
+  unfold matched. cbn [flat_map]. fold (matched lk).
+  destruct (find_param (pname p) (kwoargs r)) as [q|]; [|apply IH; exact Hn].
+  cbn [app names_of map]. constructor; [|apply IH; exact Hn].
+  change (pname (concile p q)) with (pname p). intros Hc. apply Hp. apply names_matched_incl. exact Hc.
+Qed.
+
+Lemma unmatched_kwo_shape s st st' :
+  unmatched_kwo l r s st = Ok st' ->
+  m_pos st' = m_pos st /\ m_pok st' = m_pok st /\ (forall o, unm st' o = unm st o) /\
+  (m_kwo st' = m_kwo st \/ m_kwo st' = od_update (m_kwo st) (unm st s)).
+Proof.
+  unfold unmatched_kwo. destruct (unm st s) as [|u0 u] eqn:Eu.
+  - intros E. inversion E; subst st'. auto.
+  - rewrite <- Eu. destruct (isSome (varkwargs (other l r s))).
+    + intros E.
+      remember (excl_vk (fold_left (fun a p => add_src1 l r a (pname p) s) (unm st s)
+                                   (set_kwo st (od_update (m_kwo st) (unm st s))))
+                        (match s with L => R | R => L end)) as st1 eqn:Est.
+      inversion E; subst st'; clear E.
+      destruct (fold_src_fields s (unm st s) (set_kwo st (od_update (m_kwo st) (unm st s)))) as (A & B & C & D & F).
+      cbv zeta in A, B, C, D, F. cbn [set_kwo m_pos m_pok m_kwo m_lunm m_runm] in A, B, C, D, F.
+      destruct (excl_vk_fields (fold_left (fun a p => add_src1 l r a (pname p) s) (unm st s)
+                                   (set_kwo st (od_update (m_kwo st) (unm st s))))
+                               (match s with L => R | R => L end)) as (A' & B' & C' & D' & F').
+      rewrite <- Est in A', B', C', D', F'.
+      split; [congruence|]. split; [congruence|].
+      split; [apply unm_fields; congruence|]. right. congruence.
+    + destruct (forallb has_def (unm st s)); [|discriminate]. intros E. inversion E; subst st'. auto.
+Qed.
+
+Lemma unmatched_kwo_acc s st st' :
+  unmatched_kwo l r s st = Ok st' -> GU s st -> AInv st [] -> AInv st' [].
+Proof.
+  intros E GUs [A1 A2 A3 A4 A5].
+  destruct (unmatched_kwo_shape s st st' E) as (P1 & P2 & U & [K|K]).
+  - constructor; rewrite ?P1, ?(pkn_same _ _ P2), ?K; auto.
+    + rewrite P2. exact A2.
+    + intros o y Hy. rewrite U in Hy. exact (A5 o y Hy).
+  - rewrite (od_update_fresh _ _ (g_fb _ _ GUs) (g_fa _ _ GUs)) in K.
+    constructor; rewrite ?P1, ?(pkn_same _ _ P2); auto.
+    + rewrite P2. exact A2.
+    + rewrite K, names_app, app_assoc. apply NoDup_app_intro; [exact A3|apply (g_fb _ _ GUs)|].
+      intros y Hy Hc. apply in_app_or in Hy. destruct Hy as [Hy|Hy].
+      * exact (A5 s y Hc Hy).
+      * exact (g_fa _ _ GUs y Hc Hy).
+    + intros o y Hy. rewrite U in Hy. exact (A5 o y Hy).
+Qed.
+
+Lemma split_pat a : forall b, Forall isPO a -> Forall isPK b -> split_po_prefix (a ++ b) = (a, b).
+Proof.
+  induction a as [|p a IH]; intros b Ha Hb.
+  - cbn [app]. destruct b as [|q b]; [reflexivity|]. cbn [split_po_prefix].
+    inversion Hb as [|? ? Hq _]; subst. unfold is_kind. rewrite Hq. reflexivity.
+  - inversion Ha as [|? ? Hp Ha']; subst. cbn [app split_po_prefix]. unfold is_kind. rewrite Hp. cbn.
+    rewrite (IH b Ha' Hb). reflexivity.
+Qed.
+
+(* ------------------------------------------------------------------ *)
+(* the whole merger                                                     *)
+
+Theorem merger_summary res :
+  merger l r = Ok res ->
+  (exists st, posargs res = m_pos st /\ pokargs res = m_pok st /\ kwoargs res = m_kwo st /\
+    isSome (varargs res) = isSome (varargs l) && isSome (varargs r) /\
+    isSome (varkwargs res) = isSome (varkwargs l) && isSome (varkwargs r) /\
+    (forall p, varargs res = Some p -> pkind p = VP) /\
+    (forall p, varkwargs res = Some p -> pkind p = VK) /\
+    GK st /\
+    (forall o, SInv o st (posargs (myS o) ++ pokargs (myS o))) /\
+    (forall o p, In p (kwoargs (myS o)) -> has_def p = false ->
+                 exists q, In q (m_kwo st) /\ has_def q = false /\ pname q = pname p)) /\
+  kinds_ok res /\ NoDup (names_of (pokargs res ++ kwoargs res)).
+Proof.
+  unfold merger. fold st0. fold st_init. intros E.
+  destruct init_inv as (G2 & SL2 & SR2 & Hk2).
+  destruct init_fields as (F1 & F2 & F3 & F4 & F5).
+  apply bind_ok in E. destruct E as [[[st3 il] ir] [E3 E]].
+  destruct (zip_pos_inv (posargs l) (posargs r) (pokargs l) (pokargs r) st_init st3 il ir [] []
+              (incl_refl _) (incl_refl _) (incl_refl _) (incl_refl _) E3 G2 SL2 SR2)
+    as [pl [pr (Cl & Cr & G3 & SL3 & SR3 & K3)]].
+  cbn [app] in SL3, SR3.
+  assert (HP0 : Forall isPO (m_pos st_init)) by (rewrite F1; constructor).
+  destruct (zip_pos_frame (posargs l) (posargs r) (pokargs l) (pokargs r) st_init st3 il ir
+              (incl_refl _) (incl_refl _) E3 HP0) as (Z1 & Z2 & _ & _).
+  assert (A3 : AInv st3 (il ++ ir)).
+  { assert (Epk : pkn st3 = []) by (unfold pkn; rewrite Z2, F2; reflexivity).
+    constructor.
+    - exact Z1.
+    - rewrite Z2, F2. apply pkpat_po. constructor.
+    - rewrite Epk, K3, F3. cbn [app]. apply matched_names_nodup. apply (N_ko L).
+    - rewrite Epk. intros x [].
+    - rewrite Epk. intros o y _ []. }
+  apply bind_ok in E. destruct E as [st4 [E4 E]].
+  assert (Nil : NoDup (names_of il)).
+  { pose proof (N_pk L) as H. cbn [my] in H. rewrite Cl, names_app in H. apply nodup_app_r in H. exact H. }
+  assert (Nir : NoDup (names_of ir)).
+  { pose proof (N_pk R) as H. cbn [my] in H. rewrite Cr, names_app in H. apply nodup_app_r in H. exact H. }
+  assert (Hil : incl il (pokargs l)) by (rewrite Cl; apply incl_appr; apply incl_refl).
+  assert (Hir : incl ir (pokargs r)) by (rewrite Cr; apply incl_appr; apply incl_refl).
+  assert (Hk3 : forall x, In x (names_of (m_kwo st3)) ->
+                          In x (names_of (kwoargs l)) /\ In x (names_of (kwoargs r)))
+    by (rewrite K3; exact Hk2).
+  destruct (zip_pok_inv il ir st3 st4 _ _ Nil Nir Hil Hir Hk3 E4 G3 SL3 SR3 A3) as (G4 & SL4 & SR4 & A4).
+  rewrite <- app_assoc, <- Cl in SL4. rewrite <- app_assoc, <- Cr in SR4.
+  apply bind_ok in E. destruct E as [st5 [E5 E]].
+  destruct G4 as (GK4 & GL4 & GR4 & GD4).
+  destruct (unmatched_kwo_inv L st4 st5 _ _ E5 GK4 GL4 GD4 SL4 SR4) as (GK5 & GR5 & SL5 & SR5 & RL5 & M5 & U5).
+  specialize (GR5 GR4).
+  pose proof (unmatched_kwo_acc L st4 st5 E5 GL4 A4) as A5.
+  apply bind_ok in E. destruct E as [st6 [E6 E]].
+  assert (Hdis6 : forall y, In y (names_of (unm st5 R)) -> ~ In y (names_of (unm st5 (flip R)))).
+  { intros y Hy Hc. rewrite U5 in Hy, Hc. cbn [unm flip] in Hy, Hc. exact (GD4 y Hc Hy). }
+  destruct (unmatched_kwo_inv R st5 st6 _ _ E6 GK5 GR5 Hdis6 SR5 SL5) as (GK6 & _ & SR6 & SL6 & RR6 & M6 & _).
+  pose proof (unmatched_kwo_acc R st5 st6 E6 GR5 A5) as A6.
+  cbn [flip] in SL6.
+  (* normalise_pok, add_star *)
+  destruct (normalise_fields st6) as (N1 & N2 & N3 & _).
+  destruct A6 as [A61 (pa & pb & Epat & Hpa & Hpb) A63 _ _].
+  assert (N4 : m_pos (normalise_pok st6) = m_pos st6 ++ pa /\ m_pok (normalise_pok st6) = pb).
+  { unfold normalise_pok. rewrite Epat, (split_pat pa pb Hpa Hpb). split; reflexivity. }
+  destruct N4 as [N4 N5].
+  set (st7 := normalise_pok st6) in *.
+  pose proof (add_star_fields (m_xva_l st7) (m_xva_r st7) (varargs l) (varargs r) st7) as A8.
+  destruct (add_star l r (m_xva_l st7) (m_xva_r st7) (varargs l) (varargs r) st7) as [va st8].
+  cbn [fst snd] in A8. destruct A8 as (A1 & A1' & A2 & A3' & A4' & A5').
+  pose proof (add_star_fields (m_xvk_l st8) (m_xvk_r st8) (varkwargs l) (varkwargs r) st8) as A9.
+  destruct (add_star l r (m_xvk_l st8) (m_xvk_r st8) (varkwargs l) (varkwargs r) st8) as [vk st9].
+  cbn [fst snd] in A9. destruct A9 as (B1 & B1' & B2 & B3 & B4 & B5).
+  inversion E; subst res; clear E. cbn [posargs pokargs varargs kwoargs varkwargs].
+  assert (ERP : RP st9 = RP st6) by (unfold RP; rewrite B1, B1', A1, A1'; exact N1).
+  assert (EK : m_kwo st9 = m_kwo st6) by (rewrite B2, A2, N2; reflexivity).
+  assert (EU : forall o, unm st9 o = unm st6 o) by (intros o; rewrite B3, A3', N3; reflexivity).
+  destruct Kl as (_ & _ & Kl3 & _ & Kl5). destruct Kr as (_ & _ & Kr3 & _ & Kr5).
+  assert (Hva : forall p, va = Some p -> pkind p = VP).
+  { intros p Hp. destruct (A5' p Hp) as [[a [Ha ->]]|[b [Hb ->]]]; auto. }
+  assert (Hvk : forall p, vk = Some p -> pkind p = VK).
+  { intros p Hp. destruct (B5 p Hp) as [[a [Ha ->]]|[b [Hb ->]]]; auto. }
+  split; [|split].
+  - exists st9. repeat (split; [reflexivity|]).
+    split; [exact A4'|]. split; [exact B4|]. split; [exact Hva|]. split; [exact Hvk|].
+    split; [apply (gk_same st6); assumption|].
+    split.
+    + intros o. apply (sinv_same o st6); auto. destruct o; assumption.
+    + intros o p Hp Hd. rewrite EK. destruct o.
+      * destruct (RL5 p Hp Hd) as [q [Hq Hr]]. exists q. split; [apply M6; exact Hq|exact Hr].
+      * apply (RR6 p Hp Hd).
+  - unfold kinds_ok. cbn [posargs pokargs varargs kwoargs varkwargs].
+    rewrite B1, A1, N4, B1', A1', N5, EK.
+    split; [apply Forall_app; split; assumption|]. split; [exact Hpb|]. split; [exact Hva|].
+    split; [|exact Hvk]. apply Forall_forall. apply (g_kwo _ GK6).
+  - rewrite B1', A1', N5, EK, names_app.
+    assert (Epk : pkn st6 = names_of pb).
+    { unfold pkn. rewrite Epat, filter_app, (filter_pk_po _ Hpa), (filter_pk_pk _ Hpb). reflexivity. }
+    rewrite <- Epk. exact A63.
+Qed.
+
+
+(* the same walk, exposing the intermediate states (used by MergeSoundMixed.v) *)
+Theorem merger_walk res :
+  merger l r = Ok res ->
+  exists st3 il ir st4 st5 st6 pl pr,
+    zip_pos l r (posargs l) (posargs r) (pokargs l) (pokargs r) st_init = Ok (st3, il, ir) /\
+    pokargs l = pl ++ il /\ pokargs r = pr ++ ir /\
+    zip_pok l r il ir st3 = Ok st4 /\ unmatched_kwo l r L st4 = Ok st5 /\ unmatched_kwo l r R st5 = Ok st6 /\
+    GInv st_init /\ GInv st3 /\ GInv st4 /\ GU R st5 /\
+    posargs res ++ pokargs res = RP st6 /\ kwoargs res = m_kwo st6.
+Proof.
+  unfold merger. fold st0. fold st_init. intros E.
+  destruct init_inv as (G2 & SL2 & SR2 & Hk2).
+  destruct init_fields as (F1 & F2 & F3 & F4 & F5).
+  apply bind_ok in E. destruct E as [[[st3 il] ir] [E3 E]].
+  destruct (zip_pos_inv (posargs l) (posargs r) (pokargs l) (pokargs r) st_init st3 il ir [] []
+              (incl_refl _) (incl_refl _) (incl_refl _) (incl_refl _) E3 G2 SL2 SR2)
+    as [pl [pr (Cl & Cr & G3 & SL3 & SR3 & K3)]].
+  cbn [app] in SL3, SR3.
+  assert (HP0 : Forall isPO (m_pos st_init)) by (rewrite F1; constructor).
+  destruct (zip_pos_frame (posargs l) (posargs r) (pokargs l) (pokargs r) st_init st3 il ir
+              (incl_refl _) (incl_refl _) E3 HP0) as (Z1 & Z2 & _ & _).
+  assert (A3 : AInv st3 (il ++ ir)).
+  { assert (Epk : pkn st3 = []) by (unfold pkn; rewrite Z2, F2; reflexivity).
+    constructor.
+    - exact Z1.
+    - rewrite Z2, F2. apply pkpat_po. constructor.
+    - rewrite Epk, K3, F3. cbn [app]. apply matched_names_nodup. apply (N_ko L).
+    - rewrite Epk. intros x [].
+    - rewrite Epk. intros o y _ []. }
+  apply bind_ok in E. destruct E as [st4 [E4 E]].
+  assert (Nil : NoDup (names_of il)).
+  { pose proof (N_pk L) as H. cbn [my] in H. rewrite Cl, names_app in H. apply nodup_app_r in H. exact H. }
+  assert (Nir : NoDup (names_of ir)).
+  { pose proof (N_pk R) as H. cbn [my] in H. rewrite Cr, names_app in H. apply nodup_app_r in H. exact H. }
+  assert (Hil : incl il (pokargs l)) by (rewrite Cl; apply incl_appr; apply incl_refl).
+  assert (Hir : incl ir (pokargs r)) by (rewrite Cr; apply incl_appr; apply incl_refl).
+  assert (Hk3 : forall x, In x (names_of (m_kwo st3)) ->
+                          In x (names_of (kwoargs l)) /\ In x (names_of (kwoargs r)))
+    by (rewrite K3; exact Hk2).
+  destruct (zip_pok_inv il ir st3 st4 _ _ Nil Nir Hil Hir Hk3 E4 G3 SL3 SR3 A3) as (G4 & SL4 & SR4 & A4).
+  apply bind_ok in E. destruct E as [st5 [E5 E]].
+  pose proof G4 as (GK4 & GL4 & GR4 & GD4).
+  destruct (unmatched_kwo_inv L st4 st5 _ _ E5 GK4 GL4 GD4 SL4 SR4) as (GK5 & GR5 & SL5 & SR5 & RL5 & M5 & U5).
+  specialize (GR5 GR4).
+  apply bind_ok in E. destruct E as [st6 [E6 E]].
+  destruct (normalise_fields st6) as (N1 & N2 & N3 & _).
+  set (st7 := normalise_pok st6) in *.
+  pose proof (add_star_fields (m_xva_l st7) (m_xva_r st7) (varargs l) (varargs r) st7) as A8.
+  destruct (add_star l r (m_xva_l st7) (m_xva_r st7) (varargs l) (varargs r) st7) as [va st8].
+  cbn [fst snd] in A8. destruct A8 as (A1 & A1' & A2 & _).
+  pose proof (add_star_fields (m_xvk_l st8) (m_xvk_r st8) (varkwargs l) (varkwargs r) st8) as A9.
+  destruct (add_star l r (m_xvk_l st8) (m_xvk_r st8) (varkwargs l) (varkwargs r) st8) as [vk st9].
+  cbn [fst snd] in A9. destruct A9 as (B1 & B1' & B2 & _).
+  inversion E; subst res; clear E. cbn [posargs pokargs kwoargs].
+  exists st3, il, ir, st4, st5, st6, pl, pr.
+  repeat (split; [assumption|]). split.
+  - fold (RP st9). unfold RP. rewrite B1, B1', A1, A1'. exact N1.
+  - rewrite B2, A2, N2. reflexivity.
+Qed.
+
 End MS.
+
+Print Assumptions merger_summary.
+Print Assumptions merger_walk.
